@@ -272,3 +272,44 @@ pub fn build_base(t: &mut Tape, cfg: &CaseCfg, stats: &mut GenStats) -> Option<B
     let _ = Named::Int;
     Some(Base { world, features: feats, case, schema_is_json: use_json })
 }
+
+/// A case from an explicitly constructed world (exhaustive / probe families): canonical SDL,
+/// plain document layout, the given options and delivery; one unit per operation.
+pub fn base_from_world(world: World, mut opts: Opts, delivery: Delivery) -> Base {
+    let feats = features(&world.schema, &world.doc);
+    let schema_text = world.schema.to_sdl(&SdlStyle::default());
+    let document = render_document(&world.doc, &world.schema, &QueryStyle { trivia: None });
+    if opts.response_derives.is_none() {
+        opts.response_derives = Some("Serialize,Debug".into());
+    }
+    if opts.variables_derives.is_none() {
+        opts.variables_derives = Some("Deserialize,Debug".into());
+    }
+    match delivery {
+        Delivery::Derive | Delivery::DeriveSerdeless => {
+            opts.derive_mode = true;
+            opts.serde_path = Some("graphql_client::_private::serde".into());
+            if opts.visibility.is_none() {
+                opts.visibility = Some("pub".into());
+            }
+        }
+        _ => {}
+    }
+    let mut units = Vec::new();
+    for op in world.doc.operations() {
+        let op_name = op.name.clone().unwrap();
+        let module = op_name.to_snake_case();
+        let enums = crate::e1::used_enums(&world.schema, &world.doc, op)
+            .into_iter()
+            .map(|ei| {
+                let g = world.schema.enums[ei].name.clone();
+                let r = rust_type_name(&g, opts.normalization_rust);
+                (g, format!("{}::{}", module, r))
+            })
+            .collect();
+        units.push(Unit { struct_name: rust_type_name(&op_name, opts.normalization_rust), op_name, enums, has_variables: !op.vars.is_empty() });
+    }
+    let scalars = world.schema.scalars.iter().map(|s| (s.name.clone(), s.repr)).collect();
+    let case = E1Case { schema_text, schema_ext: "graphql".into(), document, opts, delivery, scalars, extern_enums: vec![], units, vectors: vec![] };
+    Base { world, features: feats, case, schema_is_json: false }
+}
